@@ -138,11 +138,13 @@ def driver(programs: list[dict]) -> str:
 	for p in programs:
 		out.append(f'namespace {p["ns"]} {{')
 		out.append(strip_header(p['cpp']))
+		out.append('using ::show;')
 		out.extend(p.get('shows', []))
 		out.append('int __run() {')
 		for label, call in p['calls']:
 			out.append('\ttry {')
-			out.append(f'\t\tstd::cout << "{label} " << show({call}) << std::endl;')
+			out.append(f'\t\tstd::string __r = show({call});')
+			out.append(f'\t\tstd::cout << "{label} " << __r << std::endl;')
 			for ctype, pyname in p.get('exceptions', {'std::runtime_error': 'RuntimeError'}).items():
 				out.append(f'\t}} catch (const {ctype}& e) {{ std::cout << "{label} RAISED {pyname}" << std::endl;')
 			out.append(f'\t}} catch (const std::exception& e) {{ std::cout << "{label} RAISED <std::exception>" << std::endl;')
